@@ -112,21 +112,24 @@ Proof. exact blk_check_all_in_spec. Qed.
 Print Assumptions C09_ranges_all_in.
 
 (* ---------------------------------------------------------------- layer 2: reassembly *)
-(* Server (Block1): for any sequence of arrivals that are slices of one body (any order,
-   duplicates, gaps), for any content of uninitialised storage: every delivery is the body,
-   no block is rejected, and the number of deliveries is bounded by the number of times any
-   single block arrived.  The Size1 option may be absent or exact (the model describes
-   coap_handle_request_put_block as repaired by /repo commit 06a7cfe). *)
-Theorem C09_reassembly_server : forall body szx (junk : Z -> Z),
-  0 <= szx -> 0 < len body ->
+(* Server (Block1), coap_handle_request_put_block as repaired by /repo commits 06a7cfe and
+   e2e5ed9.  [u] is the unit in which the server counts blocks (lg_srcv->szx); an arrival is
+   block k of the body cut at some size s >= u (s > u only for a first block that exceeds the
+   server's configured maximum, blk_srv_init_szx).  For any sequence of such arrivals (any
+   order, duplicates, gaps), any content of uninitialised storage, Size1 absent or exact:
+   every delivery is the body, no block is rejected, and the number of deliveries is bounded,
+   for every block j, by the number of arrivals whose payload covers block j. *)
+Theorem C09_reassembly_server : forall body u (junk : Z -> Z) maxszx,
+  0 <= u -> 0 < len body ->
   forall (size : option Z) (l : list blk_arr),
   size = None \/ size = Some (len body) ->
-  Forall (fun a => exists k, 0 <= k < blk_nblocks body szx /\
-                             a = blk_arr_of body szx size k) l ->
+  Forall (fun a => exists s k, u <= s /\ 0 <= k < blk_nblocks body s /\
+                               a = blk_arr_of body s size k /\
+                               blk_srv_init_szx maxszx a = u) l ->
   Forall (fun o => match o with BoDeliver d => d = body | BoReject => False | _ => True end)
-         (blk_run (blk_srv_step junk) None l) /\
-  forall j, 0 <= j < blk_nblocks body szx ->
-    blk_count_deliveries (blk_run (blk_srv_step junk) None l) <= blk_count_num j l.
+         (blk_run (blk_srv_step junk maxszx) None l) /\
+  forall j, 0 <= j < blk_nblocks body u ->
+    blk_count_deliveries (blk_run (blk_srv_step junk maxszx) None l) <= blk_count_cover u j l.
 Proof. exact blk_srv_reassembly. Qed.
 Print Assumptions C09_reassembly_server.
 
@@ -145,14 +148,28 @@ Proof. exact blk_cli_reassembly. Qed.
 Print Assumptions C09_reassembly_client.
 
 (* every block once, in order: continuations, then exactly one delivery of the body *)
-Theorem C09_inorder_server : forall body szx (junk : Z -> Z),
+Theorem C09_inorder_server : forall body szx (junk : Z -> Z) maxszx,
   0 <= szx -> 0 < len body -> forall size, size = None \/ size = Some (len body) ->
   2 <= blk_nblocks body szx ->
-  blk_run (blk_srv_step junk) None
+  blk_srv_init_szx maxszx (blk_arr_of body szx size 0) = szx ->
+  blk_run (blk_srv_step junk maxszx) None
     (map (blk_arr_of body szx size) (blk_range (blk_nblocks body szx)))
   = repeat BoContinue (Z.to_nat (blk_nblocks body szx - 1)) ++ [BoDeliver body].
 Proof. exact blk_srv_inorder. Qed.
 Print Assumptions C09_inorder_server.
+
+(* size negotiation by the server (the case repaired by e2e5ed9): first block at the client's
+   size s0, the rest at the server's smaller size u, no loss: exactly one delivery *)
+Theorem C09_inorder_server_renegotiated : forall body u (junk : Z -> Z) maxszx,
+  0 <= u -> 0 < len body -> forall size s0, size = None \/ size = Some (len body) ->
+  u < s0 -> blk_srv_init_szx maxszx (blk_arr_of body s0 size 0) = u ->
+  let q := 2 ^ (s0 - u) in q < blk_nblocks body u ->
+  blk_run (blk_srv_step junk maxszx) None
+    (blk_arr_of body s0 size 0 ::
+     map (blk_arr_of body u size) (blk_range_from q (blk_nblocks body u - q)))
+  = repeat BoContinue (Z.to_nat (blk_nblocks body u - q)) ++ [BoDeliver body].
+Proof. exact blk_srv_inorder_renegotiated. Qed.
+Print Assumptions C09_inorder_server_renegotiated.
 
 Theorem C09_inorder_client : forall body szx (junk : Z -> Z),
   0 <= szx -> 0 < len body -> forall size, size = None \/ size = Some (len body) ->
